@@ -398,10 +398,29 @@ static void write_client_file(struct client_data *c, char *filename, int nr, ...
 	close(fd);
 }
 
+/*
+ * Is a connected client writing to this directory, or to the directory
+ * that create_directory() would remove to make room for 'dirname.old'?
+ */
+static bool dirname_in_use(const char *dirname)
+{
+	struct client_data *c;
+	size_t len = strlen(dirname);
+
+	list_for_each_entry(c, &client_list, list) {
+		if (!strcmp(c->dirname, dirname))
+			return true;
+		if (!strncmp(c->dirname, dirname, len) && !strcmp(c->dirname + len, ".old"))
+			return true;
+	}
+	return false;
+}
+
 static void recv_trace_dir_name(int sock, int len)
 {
 	char dirname[len + 1];
 	struct client_data *client;
+	int i;
 
 	if (read_all(sock, dirname, len) < 0)
 		pr_err("recv header failed");
@@ -413,8 +432,16 @@ static void recv_trace_dir_name(int sock, int len)
 	client->dirname = xstrdup(dirname);
 	INIT_LIST_HEAD(&client->list);
 
-	create_directory(dirname);
-	pr_dbg3("create directory: %s\n", dirname);
+	/* the name is chosen by the client: keep the data of connected clients apart */
+	for (i = 1; dirname_in_use(client->dirname); i++) {
+		free(client->dirname);
+		xasprintf(&client->dirname, "%s.%d", dirname, i);
+	}
+	if (i > 1)
+		pr_warn("%s is in use by another client: saving to %s\n", dirname, client->dirname);
+
+	create_directory(client->dirname);
+	pr_dbg3("create directory: %s\n", client->dirname);
 
 	list_add(&client->list, &client_list);
 }
